@@ -125,6 +125,8 @@ def quick_specs():
     # several inputs
     S.append(spec("multi", "multi", O(dir="{out}", export=["csv", "text"], tables="t2"), input_name="", group="multi"))
     S.append(spec("multi-case", "multi", O(dir="{out}", export=["case", "sqlite"], tables="t2"), input_name="", group="multi"))
+    # several inputs and a file prefix: every input gets its own sub-directory of the output directory
+    S.append(spec("multi-pfx", "multi", O(dir="{out}", export=["csv", "sqlite", "text"], tables="t2", prefix="mp"), "env", input_name="", group="multi"))
     # odd table names
     S.append(spec("odd-space-csv", "odd_space", O(dir="{out}", export=["csv", "text", "xlsx"]), group="names"))
     S.append(spec("odd-space-sqlite", "odd_space", O(dir="{out}", export=["sqlite"]), group="names"))
